@@ -531,8 +531,17 @@ func onlyPermutes(p *Prog, fn *ssa.Function, seen map[*ssa.Function]bool) string
 					return fmt.Sprintf("%s: an element is overwritten with a value that is not an element of the same slice", p.pos(t.Pos()))
 				}
 				src, ok := ld.X.(*ssa.IndexAddr)
-				if !ok || src.X != ia.X {
+				if !ok {
 					return fmt.Sprintf("%s: an element is overwritten with a value that is not an element of the same slice", p.pos(t.Pos()))
+				}
+				// the source may be read through a re-slice of the same slice (for _, x := range s[1:])
+				var srcLow ssa.Value
+				if src.X != ia.X {
+					sl, isSl := src.X.(*ssa.Slice)
+					if !isSl || !sameSlotValue(sl.X, ia.X) {
+						return fmt.Sprintf("%s: an element is overwritten with a value that is not an element of the same slice", p.pos(t.Pos()))
+					}
+					srcLow = sl.Low
 				}
 				// compaction moves elements towards the front only: destination index ≤ source index
 				bp := newBoundsProver(p, sharedEngineLite(p))
@@ -540,6 +549,10 @@ func onlyPermutes(p *Prog, fn *ssa.Function, seen map[*ssa.Function]bool) string
 				fb.inferPhiInvariants()
 				di, ok1 := fb.linOf(ia.Index, t, 0)
 				si, ok2 := fb.linOf(src.Index, t, 0)
+				if ok2 && srcLow != nil {
+					lo, ok3 := fb.linOf(srcLow, t, 0)
+					si, ok2 = si.add(lo), ok3
+				}
 				if !ok1 || !ok2 {
 					return fmt.Sprintf("%s: element copy with non-linear indices", p.pos(t.Pos()))
 				}
@@ -590,6 +603,10 @@ func onlyPermutes(p *Prog, fn *ssa.Function, seen map[*ssa.Function]bool) string
 }
 
 var canonDiffRe = regexp.MustCompile(`^\(\*\(\*spdxexp\.node\)\.reconstructedLicenseString\((elem\([^()]*\))\) (!=|==) \*\(\*spdxexp\.node\)\.reconstructedLicenseString\((elem\([^()]*\))\)\)$`)
+var canonTextRe = regexp.MustCompile(`^\*\(\*spdxexp\.node\)\.reconstructedLicenseString\(elem\([^()]*\)\)$`)
+
+// an element of a re-slice of X is an element of X
+var reSliceElemRe = regexp.MustCompile(`elem\(([^()\[\]]*)\[[^\]()]*\]\)`)
 var elemDiffRe = regexp.MustCompile(`^\((elem\([^()]*\)) (!=|==) (elem\([^()]*\))\)$`)
 
 // compactionGuardExact: every branch condition that dominates the element copy st inside its loop is
@@ -599,6 +616,31 @@ var elemDiffRe = regexp.MustCompile(`^\((elem\([^()]*\)) (!=|==) (elem\([^()]*\)
 func compactionGuardExact(p *Prog, fn *ssa.Function, st *ssa.Store) string {
 	qz := &quantizer{p: p, elemVar: map[ssa.Value]string{}, inlineAll: true}
 	b := st.Block()
+	// a loop-carried string that holds, on every incoming edge, the canonical text of an element of the
+	// slice (lastText := text(s[0]); for … { …; lastText = text(curr) }) denotes such a text itself
+	for _, blk := range fn.Blocks {
+		for _, in := range blk.Instrs {
+			phi, ok := in.(*ssa.Phi)
+			if !ok {
+				break
+			}
+			if !isStringType(phi.Type()) {
+				continue
+			}
+			common := ""
+			for i, e := range phi.Edges {
+				pv := reSliceElemRe.ReplaceAllString(qz.prov(e, 0), "elem($1)")
+				if !canonTextRe.MatchString(pv) || (i > 0 && pv != common) {
+					common = ""
+					break
+				}
+				common = pv
+			}
+			if common != "" {
+				qz.elemVar[phi] = common
+			}
+		}
+	}
 	// the loop header that contains the store: nearest dominator that is a loop header
 	var lits []*qf
 	found := false
@@ -653,9 +695,10 @@ func compactionGuardExact(p *Prog, fn *ssa.Function, st *ssa.Store) string {
 		if a.Op != "atom" {
 			return "the element copy of the compaction is guarded by " + l.String() + ", which is not the test that the canonical texts of two neighbouring elements differ: nodes the matcher tells apart can be merged and one of them lost"
 		}
-		m := canonDiffRe.FindStringSubmatch(a.Atom)
+		atom := reSliceElemRe.ReplaceAllString(a.Atom, "elem($1)")
+		m := canonDiffRe.FindStringSubmatch(atom)
 		if m == nil {
-			m = elemDiffRe.FindStringSubmatch(a.Atom)
+			m = elemDiffRe.FindStringSubmatch(atom)
 		}
 		if m == nil || m[1] != m[3] || (m[2] == "!=") == neg {
 			return "the element copy of the compaction is guarded by " + l.String() + ", which is not the test that the canonical texts of two neighbouring elements differ: nodes the matcher tells apart can be merged and one of them lost"
